@@ -44,8 +44,8 @@ def _universe():
         def __repr__(self):
             return f"<P {self.tag}>"
 
-    return {"p1": P("p1", {"a", "b"}, True), "p2": P("p2", {"b", "c", "slsqp", "norm", "mean", "tracker", "optimizer", "sort-objective"}, True),
-            "p3": P("p3", {"a", "c"}, False)}
+    return {"p1": P("p1", {"a", "b", "grp/a"}, True), "p2": P("p2", {"b", "c", "slsqp", "norm", "mean", "tracker", "optimizer", "sort-objective"}, True),
+            "p3": P("p3", {"a", "c", "grp/a"}, False)}
 
 
 def _collisions(ptype):
@@ -192,7 +192,10 @@ def run_case(case, obs):
         L = case["length"]
         pre = case["prefix"]
         seqs = ([*pre, *rest] for rest in itertools.product(range(len(ops)), repeat=L - 2))
-    probes = sorted({o[1] for o in ops if o[0] in ("get", "sup")})
+    # method names may themselves contain a slash (the documented external/<plugin>/<method> form): the plug-in name ends at
+    # the first one
+    probes = sorted({o[1] for o in ops if o[0] in ("get", "sup")} | {"p1/grp/a", "P1/GRP/A", "p2/grp/a", "p3/grp/a", "grp/a"}
+                    | ({"external/scipy/slsqp", "external/SciPy/SLSQP", "external/scipy/no-such-method"} if ptype == "optimizer" else set()))
     other = PluginManager()
     baseline = {g: _apply_real(other, ptype, ("get", g), None) for g in probes}
     n = 0
